@@ -38,7 +38,7 @@ P = {
                 sim={Q: ("CfgsPkce", 400, 8), T: ("CfgsPkce", 6000, 12)},
                 simb=dict(MaxCodes=3, MaxAT=8, MaxRT=6, MaxNow=0)),
     "C04": dict(family="C04", mc={Q: ("CfgsOne", dict(MaxCodes=1, MaxAT=4, MaxRT=4, MaxNow=1, Depth=8)),
-                                  T: ("CfgsRefresh", dict(MaxCodes=2, MaxAT=6, MaxRT=5, MaxNow=2, Depth=10))},
+                                  T: ("CfgsStrategies", dict(MaxCodes=1, MaxAT=5, MaxRT=4, MaxNow=1, Depth=9))},
                 genx={Q: ("CfgsOne", 4), T: ("CfgsOne", 6)},
                 sim={Q: ("CfgsRefresh", 400, 16), T: ("CfgsRefresh", 6000, 30)},
                 simb=dict(MaxCodes=3, MaxAT=16, MaxRT=14, MaxNow=5),
@@ -241,8 +241,8 @@ def check(prop, tier, seed, replay=None):
         mcfs.append((mcwd, pool.submit(model_check, part["family"], cfgs, bounds(b), mcwd, 8, 3000, False, refine)))
         gx_cfgs, gx_depth = part["genx"][tier]
         gb = bounds(dict(part["mc"][tier][1], Depth=gx_depth))
-        hx, gxstat = gen_exhaustive(part["family"], gx_cfgs, gb, wd, tail_k=(8 if tier == Q else None), seed=seed)
-        cap = 12000 if tier == Q else 200000
+        hx, gxstat = gen_exhaustive(part["family"], gx_cfgs, gb, wd, tail_k=(8 if tier == Q else 24), seed=seed)
+        cap = 12000 if tier == Q else 60000
         gx_total = len(hx)
         if len(hx) > cap:      # keep a seeded sample; the evidence then does not claim exhaustiveness
             random.Random(seed).shuffle(hx)
@@ -253,7 +253,7 @@ def check(prop, tier, seed, replay=None):
         gen_info.append({"family": part["family"], "exhaustive_generation": {"depth": gx_depth, "cfgs": gx_cfgs, "histories": len(hx), "of": gx_total,
                          "complete": len(hx) == gx_total, "states": gxstat.get("distinct", 0),
                          "inert_operations_appended": gxstat.get("inert_ops_appended", 0),
-                         "inert_operations_per_state": "all" if tier != Q else "seeded sample of 8"},
+                         "inert_operations_per_state": "seeded sample of 8" if tier == Q else "seeded sample of 24 (all, where a state has fewer)"},
                          "simulated_generation": {"depth": s_depth, "cfgs": s_cfgs, "histories": len(hsim), "seed": seed}})
         log(f"[gen] {part['family']}: {len(hx)} state-cover histories of depth {gx_depth} (+{gxstat.get('inert_ops_appended', 0)} refused/query operations appended), {len(hsim)} simulated histories of depth {s_depth}")
 
